@@ -88,10 +88,11 @@ def inverse_axioms():
 
 
 def lem_inv_container(res, src, n):
-    """LA4: the inverse of a block diagonal of invertible blocks is the block diagonal of the inverses"""
+    """LA4: the inverse of a block diagonal of invertible blocks is the block diagonal of the inverses — stated through
+    the contract of X.I: if block k of `res` is inversed(block k of `src`) for every k (inversed(o) denotes inv(den o):
+    inverse_axioms), then diag[res] = inv(diag[src]).  Pure equality reasoning: no arithmetic reaches the solver."""
     k = fresh_int('k')
-    hyp = z3.ForAll([k], z3.Implies(z3.And(k >= 0, k < n), z3.And(denw(res[k]) == invw(denw(src[k])),
-                                                                 denc(res[k]) == 1 / denc(src[k]))))
+    hyp = z3.ForAll([k], z3.Implies(z3.And(k >= 0, k < n), res[k] == inversed(src[k])))
     return z3.Implies(hyp, A.BLKW['Diag'](res, n) == invw(A.BLKW['Diag'](src, n)))
 
 
